@@ -6,6 +6,12 @@ vectors from the definition, orthonormal, invariant under every permutation of t
 from permutations), the index table of the fast reduction (== explicit contraction of the reference basis, index form ==
 tensor form) and the fast reduction itself (== embed with the reference Dicke basis and trace out k-1 copies explicitly,
 for every copy kept when the full density matrix fits), in numpy and torch.
+Every contract judges a call from a snapshot of its array arguments taken at call time, checks that the arguments were not
+modified, and that non-C-ordered arguments (Fortran order, transposed / strided views) give the result of a C-ordered copy.
+The reduction is judged twice: against the explicit contraction with the index table AS GIVEN (so a caller may scale its own
+table) and, when that table is the canonical one, against the explicit embedding. A `history` shard replays, in ONE process:
+edit-the-result-in-place-then-call-again for every function, reused work buffers refilled in place (operator, dimension list,
+coefficient matrix, index table), and the same configurations in several call orders with the first repeated at the end.
 Workloads: exhaustive keep-subsets (empty and full included) of all dimension lists in range, exhaustive (copies, dim)
 pairs and (dimA, dimB, k) triples in range with random / real / product / single-Dicke / unnormalised vectors, keep_index
 given as set/list/tuple/int/array/unsorted/duplicated, operators non-Hermitian, and numqi's own callers (PureBosonicExt,
@@ -27,7 +33,9 @@ RULE = ('one case = one monitored call, identified by (function, arguments diges
         'functions and (dimA, dimB, k, backend, dtype, vector kind, content) for the reduction. Dimension lists, keep subsets and '
         '(dimA,dimB,k) triples are enumerated completely within the stated bounds, operators and vectors are random. A '
         'partial_trace case is non-trivial when the operator is non-zero and at least one subsystem is traced out; a reduction '
-        'case is non-trivial when the vector is non-zero')
+        'case is non-trivial when the vector is non-zero. Operators / coefficient matrices also vary in dtype (complex128, complex64, float64, '
+        'float32, int64) and memory layout (C, Fortran, transposed view, strided view, slice of a larger array, (*dim,*dim) tensor shape); '
+        'history cases are (function, kind of history) replayed in one process')
 EXHAUSTIVE = {'quick': True, 'thorough': True}
 EXHAUSTIVE_DOMAINS = {
     'quick': ['all 336 (dimension list, keep subset) pairs: lists of length 2..4 with entries 2..3 (28 lists), every subset incl. empty and full',
@@ -38,6 +46,8 @@ EXHAUSTIVE_DOMAINS = {
                  'all (dimA,dimB,k) with dimA,dimB=2..4, k=1..5, dimA*dimB^k<=2048 (43 triples), both backends, 6 vector kinds; plus all dimA,dimB=2..5, k=1..10 with dimA*dimB^k<=8192'],
 }
 ASSUMPTIONS = [
+    'arrays a function returns belong to the caller: editing them in place must not change what later calls return (histories); a caller may '
+    'scale the values of its own copy of the index table: the reduction is then only required to equal the contraction with that table',
     'subsystem 0 is the slowest (left-most Kronecker) factor; the kept subsystems appear in ascending index order whatever the order in keep_index',
     'order of the Dicke basis = order of get_dicke_klist = lexicographic order of the occupation tuples (k_0..k_{d-1}); the same order labels '
     'the columns of the coefficient matrix passed to partial_trace_ABk_to_AB',
@@ -53,7 +63,8 @@ LEVEL_NOTE = ('Dimension lists x keep subsets, (copies, dim) pairs and (dimA,dim
 DECIDING = ['numqi.utils.partial_trace', 'relation/two-step==one-step', 'numqi.dicke.get_dicke_klist', 'numqi.dicke.get_dicke_number',
             'numqi.dicke.Dicke', 'numqi.dicke.get_dicke_basis', 'numqi.dicke.get_partial_trace_ABk_to_AB_index',
             'relation/index-form==tensor-form', 'numqi.dicke.partial_trace_ABk_to_AB', 'numqi.dicke.get_qubit_dicke_partial_trace',
-            'relation/torch==numpy', 'reduction/every-copy-kept']
+            'relation/torch==numpy', 'reduction/every-copy-kept', 'relation/layout-independent', 'history/edit-result-then-call-again',
+            'history/work-buffer', 'history/call-order']
 
 C_TOL = 100.0
 EPS64 = 2.3e-16
@@ -64,12 +75,12 @@ def shards(tier, seed):
     if tier == 'quick':
         ret = [{'name': 'ptrace-exh-0', 'part': 0, 'nparts': 2}, {'name': 'ptrace-exh-1', 'part': 1, 'nparts': 2},
                {'name': 'dicke-basis'}, {'name': 'abk-numpy', 'backend': 'numpy'}, {'name': 'abk-torch', 'backend': 'torch'},
-               {'name': 'realistic'}]
+               {'name': 'realistic'}, {'name': 'history'}]
     else:
         ret = [{'name': f'ptrace-exh-{i}', 'part': i, 'nparts': 10} for i in range(10)]
         ret += [{'name': f'dicke-basis-{i}', 'part': i, 'nparts': 3} for i in range(3)]
         ret += [{'name': f'abk-{b}-{i}', 'backend': b, 'rep': i} for b in ('numpy', 'torch') for i in range(3)]
-        ret += [{'name': 'realistic'}, {'name': 'repo-tests'}]
+        ret += [{'name': 'realistic'}, {'name': 'repo-tests'}, {'name': 'history'}]
     return ret
 
 
@@ -97,6 +108,37 @@ def in_eps(*xs):
         elif 'float16' in name or 'complex32' in name:
             e = max(e, 1e-3)
     return e
+
+
+def layout_of(x):
+    """memory layout of an array argument: 'C', 'F' (column-major, not C) or 'strided'"""
+    if is_torch(x):
+        return 'C' if x.is_contiguous() else 'strided'
+    x = np.asarray(x)
+    if x.flags.c_contiguous:
+        return 'C'
+    return 'F' if x.flags.f_contiguous else 'strided'
+
+
+def snap(x):
+    """values of an array argument at call time (own memory)"""
+    return np.array(npy(x), order='C', copy=True)
+
+
+def same_bytes(x, snapshot):
+    cur = npy(x)
+    return cur.shape == snapshot.shape and cur.dtype == snapshot.dtype and np.ascontiguousarray(cur).tobytes() == snapshot.tobytes()
+
+
+def table_tensor_quiet(Bij, d, nd):
+    """dense B[r,s,a,b] of an index table as given (arrays already converted to numpy), or None when malformed"""
+    try:
+        B = np.zeros((d * d, nd, nd), dtype=np.complex128)
+        for t, (i0, i1, v) in enumerate(Bij):
+            np.add.at(B[t], (np.asarray(i0), np.asarray(i1)), np.asarray(v))
+        return B.reshape(d, d, nd, nd)
+    except Exception:
+        return None
 
 
 def keep_form(keep):
@@ -186,11 +228,17 @@ def install(ctx, numqi):
     Dk = numqi.dicke
 
     # ------------------------------------------------------------------ utils.partial_trace
+    def pre_partial_trace(c):
+        rho = c.arg(0, 'rho')
+        return {'a': snap(rho), 'layout': layout_of(rho)} if (isinstance(rho, np.ndarray) or is_torch(rho)) else None
+
     def post_partial_trace(c):
         rho, dim, keep = c.arg(0, 'rho'), c.arg(1, 'dim'), c.arg(2, 'keep_index')
+        if c.snap is None:
+            return
         try:
             dims = [int(x) for x in dim]
-            a = npy(rho)
+            a = c.snap['a']  # the values at call time
             D = int(np.prod(dims, dtype=np.int64))
             if isinstance(keep, (set, frozenset, list, tuple, np.ndarray, range, int, np.integer)):
                 kp = rp.normalise_keep(keep, len(dims))
@@ -214,9 +262,20 @@ def install(ctx, numqi):
         ctx.case('partial_trace', dims, list(kp), form, str(a.dtype), a, nontrivial=bool(sc > 0 and T > 1))
         M.sample_once(('pt', which), lambda: {'point': 'partial_trace', 'dim': dims, 'keep_index': repr(keep), 'rho': a, 'result': npy(c.result)})
         ref = rp.partial_trace(a, dims, kp)
-        wit = lambda: {'dim': dims, 'keep_index': repr(keep), 'keep_form': form, 'dtype': str(a.dtype), 'rho_shape': list(a.shape)}
+        lay = c.snap['layout']
+        lays = ctx.extra.setdefault('partial_trace_layouts', {})
+        lays[f'{lay}/{a.dtype}'] = lays.get(f'{lay}/{a.dtype}', 0) + 1
+        wit = lambda: {'dim': dims, 'keep_index': repr(keep), 'keep_form': form, 'dtype': str(a.dtype), 'rho_shape': list(a.shape), 'layout': lay}
         tol = C_TOL * eps * T * sc
+        if which != 'keep-all':  # (keeping everything may return a view of the argument: nothing to compare then)
+            ctx.check(same_bytes(rho, a), 'partial_trace/mutates-argument', 'partial_trace modified its operator argument in place', wit)
         ok = M.close(c.result, ref, tol, f'partial_trace/{which}/value', 'partial_trace differs from the explicit index contraction', wit, unit=eps * T * sc)
+        if lay != 'C':
+            # the same values in a C-ordered copy must give the same answer (relational: names the mechanism)
+            good, rc = M.invoke('partial_trace/layout', U.partial_trace, np.ascontiguousarray(a), dim, keep)
+            if good:
+                M.close(c.result, npy(rc), tol, 'partial_trace/layout-dependent', 'the result depends on the memory layout (Fortran order / transposed view / strided) of the operator, not only on its values',
+                        wit, point='relation/layout-independent')
         if not ok:
             return
         got = npy(c.result)
@@ -237,7 +296,7 @@ def install(ctx, numqi):
                     M.close(r2, got, C_TOL * eps * T * sc, 'partial_trace/two-step!=one-step', 'tracing in two steps differs from tracing at once',
                             lambda: {**wit(), 'intermediate_keep': keep1}, point='relation/two-step==one-step')
 
-    ctx.attach(U, 'partial_trace', post=post_partial_trace, point='numqi.utils.partial_trace')
+    ctx.attach(U, 'partial_trace', post=post_partial_trace, pre=pre_partial_trace, point='numqi.utils.partial_trace')
 
     # ------------------------------------------------------------------ occupation lists / counts
     def post_klist(c):
@@ -404,11 +463,18 @@ def install(ctx, numqi):
     ctx.attach(Dk, 'get_qubit_dicke_partial_trace', post=post_qubit, point='numqi.dicke.get_qubit_dicke_partial_trace')
 
     # ------------------------------------------------------------------ the fast reduction
+    def pre_reduce(c):
+        state, Bij = c.arg(0, 'state'), c.arg(1, 'dicke_Bij')
+        try:
+            return {'s': snap(state), 'layout': layout_of(state), 'Bij': [tuple(snap(y) for y in x) for x in Bij]}
+        except Exception:
+            return None
+
     def post_reduce(c):
-        if c.exc is not None:
+        if c.exc is not None or c.snap is None:
             return
         state, Bij = c.arg(0, 'state'), c.arg(1, 'dicke_Bij')
-        s = npy(state)
+        s = c.snap['s']  # the values at call time
         if s.ndim != 2:
             return
         dimA, nd = s.shape
@@ -437,8 +503,38 @@ def install(ctx, numqi):
         wit = lambda: {'dimA': dimA, 'dimB': dimB, 'k': k, 'backend': be, 'dtype': str(s.dtype), 'state': s}
         ctx.check(backend_of(c.result) == be, f'partial_trace_ABk_to_AB/{be}/backend', 'result is not of the backend of the input', {'type': str(type(c.result))})
         got = npy(c.result)
+        lay = c.snap['layout']
+        lays = ctx.extra.setdefault('reduction_state_layouts', {})
+        lays[f'{be}/{lay}/{s.dtype}'] = lays.get(f'{be}/{lay}/{s.dtype}', 0) + 1
+        unchanged = same_bytes(state, s) and all(same_bytes(y, ys) for x, xs in zip(Bij, c.snap['Bij']) for y, ys in zip(x, xs))
+        ctx.check(unchanged, f'partial_trace_ABk_to_AB/{be}/mutates-argument', 'the reduction modified its coefficient matrix or its index table in place', wit)
+        # oracle 1: the contraction with the table AS GIVEN (whatever the caller did with it): sum_t psi[i,I_t] v_t conj(psi[j,J_t])
+        Bgiven = table_tensor_quiet(c.snap['Bij'], dimB, nd) if nd <= 300 else None
+        vmax = max([float(np.abs(x[2]).max()) for x in c.snap['Bij'] if x[2].size] + [0.0])
+        tol = C_TOL * eps * max(nd, 4) * nrm2 * max(vmax, 1.0)
+        if Bgiven is not None:
+            sc128 = s.astype(np.complex128)
+            lin = np.einsum('ia,rsab,jb->irjs', sc128, Bgiven, sc128.conj()).reshape(dimA * dimB, dimA * dimB)
+            if got.shape == lin.shape and np.all(np.isfinite(got)) and np.abs(got - lin).max() > tol:
+                name = classify_reduction_error(got.astype(np.complex128), lin, dimA, dimB, tol)
+                ctx.check(False, f'partial_trace_ABk_to_AB/{be}/{name}', 'the fast reduction differs from the explicit contraction of the vector with the index table it was given',
+                          lambda: {**wit(), 'max_abs_err': float(np.abs(got - lin).max()), 'tol': tol, 'got': got, 'expected': lin})
+                return
+            if not M.close(got, lin, tol, f'partial_trace_ABk_to_AB/{be}/value', 'the fast reduction differs from the explicit contraction of the vector with the index table it was given', wit):
+                return
+            if np.abs(Bgiven - rd.B_tensor(k, dimB)).max() > 1e-6 * max(vmax, 1.0):
+                # a table the caller scaled / edited: oracle 1 is all that can be said about this call
+                nc = ctx.extra.setdefault('reductions_with_a_non_canonical_table', {})
+                nc[be] = nc.get(be, 0) + 1
+                return
+        if lay != 'C':
+            fresh = state.detach().clone().contiguous() if be == 'torch' else np.ascontiguousarray(s)
+            good, rc = M.invoke('partial_trace_ABk_to_AB/layout', Dk.partial_trace_ABk_to_AB, fresh, Bij)
+            if good:
+                M.close(got, npy(rc), tol, f'partial_trace_ABk_to_AB/{be}/layout-dependent', 'the reduction depends on the memory layout of the coefficient matrix, not only on its values',
+                        wit, point='relation/layout-independent')
+        # oracle 2: embed with the reference Dicke basis and trace out k-1 copies explicitly
         ref = rd.reduce_explicit(s, k, dimB)
-        tol = C_TOL * eps * max(nd, 4) * nrm2
         if got.shape == ref.shape and np.all(np.isfinite(got)) and np.abs(got - ref).max() > tol:
             name = classify_reduction_error(got.astype(np.complex128), ref, dimA, dimB, tol)
             ctx.check(False, f'partial_trace_ABk_to_AB/{be}/{name}', 'the fast reduction differs from embedding with the Dicke basis and tracing out k-1 copies explicitly',
@@ -459,7 +555,7 @@ def install(ctx, numqi):
             ctx.check(worst <= tol, f'partial_trace_ABk_to_AB/{be}/differs-for-some-kept-copy', 'the reduction differs from Tr over all copies but one, for some choice of the kept copy',
                       lambda: {**wit(), 'max_abs_err': worst, 'tol': tol}, point='reduction/every-copy-kept')
 
-    ctx.attach(Dk, 'partial_trace_ABk_to_AB', post=post_reduce, point='numqi.dicke.partial_trace_ABk_to_AB')
+    ctx.attach(Dk, 'partial_trace_ABk_to_AB', post=post_reduce, pre=pre_reduce, point='numqi.dicke.partial_trace_ABk_to_AB')
     return M
 
 
@@ -523,7 +619,27 @@ def rand_operator(rng, kind, D):
     if kind == 'pure':
         m = np.outer(z[:, 0], z[:, 0].conj())
         return m / np.trace(m)
+    if kind == 'int':
+        return rng.integers(-5, 6, size=(D, D))
     raise ValueError(kind)
+
+
+def with_layout(a, layout):
+    """the same values in another memory layout (2-D arrays)"""
+    if layout == 'F':
+        return np.asfortranarray(a)
+    if layout == 'T-view':
+        return np.ascontiguousarray(a.T).T
+    if layout == 'strided':
+        return np.stack([a, a], axis=2)[:, :, 0]
+    if layout == 'sliced':
+        big = np.zeros((a.shape[0] + 2, a.shape[1] + 3), dtype=a.dtype)
+        big[1:-1, 2:-1] = a
+        return big[1:-1, 2:-1]
+    return np.ascontiguousarray(a)
+
+
+LAYOUTS = ['C', 'F', 'T-view', 'strided', 'sliced']
 
 
 def keep_variants(rng, keep, n, idx):
@@ -544,23 +660,29 @@ def run_ptrace(ctx, numqi, shard):
     pairs = [(dims, keep) for dims in lists for keep in rp.all_keep_subsets(len(dims), include_empty=True)]
     ctx.extra['dimension_lists'] = len(lists)
     ctx.extra['list_subset_pairs_total'] = len(pairs)
-    kinds = ['complex', 'dm', 'hermitian', 'real', 'pure']
+    kinds = ['complex', 'dm', 'hermitian', 'real', 'pure', 'int']
     done = 0
     for idx, (dims, keep) in enumerate(pairs):
         if idx % shard['nparts'] != shard['part']:
             continue
         D = int(np.prod(dims))
         done += 1
-        for rep, kind in enumerate(['complex', kinds[1 + idx % 4]]):
+        for rep, kind in enumerate(['complex', kinds[1 + idx % 5]]):
             a = rand_operator(rng, kind, D)
-            prec = 'f32' if (idx + rep) % 5 == 0 else 'f64'
+            prec = 'f32' if (idx + rep) % 5 == 0 and kind != 'int' else 'f64'
             if prec == 'f32':
                 a = a.astype(np.complex64 if np.iscomplexobj(a) else np.float32)
-            if (idx + rep) % 2:
+            # memory layout of the (D,D) operator, or the (*dim,*dim) tensor shape (C-ordered and as a transposed-back view)
+            lay = (LAYOUTS + ['tensor', 'tensor-F'])[(idx // 2 + 3 * rep) % 7]
+            if lay == 'tensor':
                 a = a.reshape(tuple(dims) + tuple(dims))
+            elif lay == 'tensor-F':
+                a = np.asfortranarray(a.reshape(tuple(dims) + tuple(dims)))
+            else:
+                a = with_layout(a, lay)
             kv = keep_variants(rng, keep, len(dims), idx + rep)
             dd = [tuple(dims), list(dims), np.array(dims)][(idx + rep) % 3]
-            ctx.set_case({'op': 'partial_trace', 'dim': list(dims), 'keep_index': repr(kv), 'kind': kind, 'prec': prec, 'tensor_shaped': bool((idx + rep) % 2)})
+            ctx.set_case({'op': 'partial_trace', 'dim': list(dims), 'keep_index': repr(kv), 'kind': kind, 'prec': prec, 'layout': lay})
             key = 'partial_trace/keep-empty' if len(keep) == 0 else 'partial_trace'
             with ctx.guard(key):
                 r = numqi.utils.partial_trace(a, dd, kv)
@@ -739,6 +861,28 @@ def run_abk(ctx, numqi, torch, backend):
                         ctx.check(ok and np.abs(np.asarray(r2) - rn).max() <= C_TOL * eps * max(nd, 4) * nrm2, 'partial_trace_ABk_to_AB/torch!=numpy',
                                   'torch and numpy reductions differ on the same input', {'dimA': dimA, 'dimB': dimB, 'k': k, 'prec': prec, 'kind': kind},
                                   point='relation/torch==numpy')
+        # dtype / memory layout of the coefficient matrix: real float64 / float32 / integer dtypes, Fortran order, transposed and
+        # strided views (numpy), transposed / strided views (torch): the contract judges every call from the VALUES
+        z = rng.normal(size=(dimA, nd)) + 1j * rng.normal(size=(dimA, nd))
+        wide = np.zeros((dimA, 2 * nd), dtype=np.complex128)
+        wide[:, ::2] = z
+        variants = {}
+        if backend == 'numpy':
+            variants = {'real-float64': z.real.copy(), 'real-float32': z.real.astype(np.float32), 'int64': rng.integers(-3, 4, size=(dimA, nd)),
+                        'fortran-order': np.asfortranarray(z), 'transposed-view': np.ascontiguousarray(z.T).T, 'strided-view': wide[:, ::2],
+                        'real-transposed-view': np.ascontiguousarray(z.real.T).T}
+            tables = {'default': Bij}
+        else:
+            tz = torch.from_numpy(z.copy())
+            variants = {'real-float64': torch.from_numpy(z.real.copy()), 'transposed-view': torch.from_numpy(np.ascontiguousarray(z.T)).T,
+                        'strided-view': torch.from_numpy(wide.copy())[:, ::2], 'conj-view': tz.conj(), 'real-transposed-view': torch.from_numpy(np.ascontiguousarray(z.real.T)).T}
+            tables = {'complex128': [[torch.tensor(np.asarray(y0), dtype=y1) for y0, y1 in zip(x, [torch.int64, torch.int64, torch.complex128])] for x in Bij],
+                      'float64': [[torch.tensor(np.asarray(y)) for y in x] for x in Bij]}
+        for name, st in variants.items():
+            tb = tables['default'] if backend == 'numpy' else tables['float64' if name.startswith('real') else 'complex128']
+            ctx.set_case({'op': 'reduce-dtype-layout', 'dimA': dimA, 'dimB': dimB, 'k': k, 'backend': backend, 'variant': name})
+            with ctx.guard(f'abk/{backend}/dtype-layout'):
+                Dk.partial_trace_ABk_to_AB(st, tb)
 
 
 def run_realistic(ctx, numqi, torch):
@@ -796,6 +940,260 @@ def run_realistic(ctx, numqi, torch):
                             numqi.utils.partial_trace(rho, [2] * n, keep)
 
 
+# ----------------------------------------------------------------------------------------------- histories
+def result_arrays(obj):
+    """numpy views sharing memory with every array inside a (nested) result"""
+    out = []
+
+    def walk(o):
+        if isinstance(o, np.ndarray):
+            out.append(o)
+        elif is_torch(o):
+            try:
+                out.append(o.detach().numpy())
+            except Exception:
+                pass
+        elif isinstance(o, (list, tuple)):
+            for x in o:
+                walk(x)
+    walk(obj)
+    return out
+
+
+def freeze(obj):
+    """deep value snapshot of a (nested) result"""
+    if isinstance(obj, np.ndarray) or is_torch(obj):
+        return ('arr', np.array(npy(obj), copy=True))
+    if isinstance(obj, (list, tuple)):
+        return (type(obj).__name__, [freeze(x) for x in obj])
+    return ('val', obj)
+
+
+def frozen_close(a, b, path='result'):
+    """(ok, where) : same structure and values (1e-12 relative)"""
+    if a[0] != b[0]:
+        return False, f'{path}: {a[0]} vs {b[0]}'
+    if a[0] == 'arr':
+        x, y = a[1], b[1]
+        if x.shape != y.shape:
+            return False, f'{path}: shape {x.shape} vs {y.shape}'
+        if x.size == 0:
+            return True, ''
+        with np.errstate(all='ignore'):
+            err = float(np.abs(x.astype(np.complex128) - y.astype(np.complex128)).max())
+        sc = float(np.abs(y.astype(np.complex128)).max())
+        return (bool(err <= 1e-12 * (1 + sc)), f'{path}: max abs difference {err:.3e}')
+    if a[0] == 'val':
+        return (a[1] == b[1], f'{path}: {a[1]!r} vs {b[1]!r}')
+    if len(a[1]) != len(b[1]):
+        return False, f'{path}: length {len(a[1])} vs {len(b[1])}'
+    for i, (x, y) in enumerate(zip(a[1], b[1])):
+        ok, where = frozen_close(x, y, f'{path}[{i}]')
+        if not ok:
+            return False, where
+    return True, ''
+
+
+def edit_in_place(arrs):
+    n = 0
+    for a in arrs:
+        if a.flags.writeable and a.size:
+            if a.dtype.kind in 'fc':
+                np.multiply(a, 3, out=a)
+                a += 1
+            elif a.dtype.kind in 'iu':
+                a += 1
+            elif a.dtype.kind == 'b':
+                np.logical_not(a, out=a)
+            else:
+                continue
+            n += 1
+    return n
+
+
+def edit_result_then_call_again(ctx, name, call, between=None):
+    """history: r1 = f(x); the caller edits r1 in place (its own result); f(equal x) must still be right.
+    `call` builds fresh, equal arguments every time. The first and the last call are monitored by the contracts."""
+    ctx.set_case({'op': 'history/edit-result-then-call-again', 'fn': name})
+    with ctx.guard(f'history/{name}'):
+        r1 = call()
+        before = freeze(r1)
+        arrs = result_arrays(r1)
+        backups = [a.copy() for a in arrs]
+        n = edit_in_place(arrs)
+        rev = isinstance(r1, list) and len(r1) > 1
+        if rev:
+            r1.reverse()
+        st = ctx.extra.setdefault('edit_result_histories', {})
+        st[name] = st.get(name, 0) + 1
+        if n == 0 and not rev:
+            ro = ctx.extra.setdefault('results_not_editable (read-only or scalar)', {})
+            ro[name] = ro.get(name, 0) + 1
+        try:
+            with ctx.quiet():
+                r2 = call()
+            ok, where = frozen_close(freeze(r2), before)
+            aliased = any(np.shares_memory(x, y) for x in result_arrays(r2) for y in arrs)
+            ctx.check(ok, f'{name}/stale-after-inplace-update',
+                      f'{name}: after the caller edited, in place, the arrays an earlier call returned, a new call with equal arguments no longer returns the same (correct) values: results are shared mutable state',
+                      {'where': where, 'result_aliases_earlier_call': aliased}, point='history/edit-result-then-call-again')
+            if ok and between is not None:
+                between()  # numqi's own callers of f, monitored, while the earlier result is still edited
+        finally:
+            if rev:
+                r1.reverse()
+            for a, b in zip(arrs, backups):
+                if a.flags.writeable:
+                    a[...] = b
+        call()
+
+
+def work_buffer(ctx, name, call, buf, fills, clone):
+    """history: one argument object reused as a work buffer: fill, call, refill in place, call again ... every call must be
+    right for the CURRENT contents (contracts judge it; the relational check names the mechanism)."""
+    ctx.set_case({'op': 'history/work-buffer', 'fn': name})
+    with ctx.guard(f'history/{name}'):
+        for fill in fills:
+            fill(buf)
+            r = call(buf)
+            with ctx.quiet():
+                rf = call(clone(buf))
+            ok, where = frozen_close(freeze(r), freeze(rf))
+            ctx.check(ok, f'{name}/stale-after-argument-update', f'{name}: called again with the same argument object after its contents were updated in place, '
+                      'the result differs from the result for a fresh copy of the current contents', {'where': where}, point='history/work-buffer')
+        st = ctx.extra.setdefault('work_buffer_histories', {})
+        st[name] = st.get(name, 0) + len(fills)
+
+
+def run_history(ctx, numqi, torch):
+    Dk, U = numqi.dicke, numqi.utils
+    rng = ctx.rng
+    ctx.workload('history')
+    randc = lambda *sh: rng.normal(size=sh) + 1j * rng.normal(size=sh)
+
+    def pt(op, dims, keep):
+        if isinstance(keep, (set, list, tuple)) and len(keep) == 0:
+            with ctx.guard('partial_trace/keep-empty'):  # (its own mechanism key)
+                return U.partial_trace(op, dims, keep)
+            return None
+        return U.partial_trace(op, dims, keep)
+
+    def torch_table(k, d, dtype=None):
+        dtype = dtype or torch.complex128
+        return [[torch.tensor(np.asarray(y0), dtype=y1) for y0, y1 in zip(x, [torch.int64, torch.int64, dtype])] for x in Dk.get_partial_trace_ABk_to_AB_index(k, d)]
+
+    # ---------------- (1a) edit the result, call again
+    rho6, rho12 = randc(6, 6), randc(12, 12)
+    for nm, th in [('partial_trace', lambda: U.partial_trace(rho6.copy(), (2, 3), {0})), ('partial_trace', lambda: pt(rho6.copy(), (2, 3), set())),
+                   ('partial_trace', lambda: U.partial_trace(rho6.copy(), (2, 3), {0, 1})), ('partial_trace', lambda: U.partial_trace(rho12.copy(), [2, 3, 2], [0, 2])),
+                   ('partial_trace', lambda: U.partial_trace(np.asfortranarray(rho12), [2, 3, 2], 1))]:
+        edit_result_then_call_again(ctx, nm, th)
+    pairs = [(2, 2), (3, 2), (2, 3), (3, 3), (1, 2), (4, 2)] + ([(5, 2), (3, 4), (4, 3)] if ctx.tier == 'thorough' else [])
+    for n, d in pairs:
+        edit_result_then_call_again(ctx, 'get_dicke_klist', lambda: Dk.get_dicke_klist(n, d))
+        edit_result_then_call_again(ctx, 'get_dicke_basis', lambda: Dk.get_dicke_basis(n, d))
+        occ = rd.occupations(n, d)[len(rd.occupations(n, d)) // 2]
+        edit_result_then_call_again(ctx, 'Dicke', lambda: Dk.Dicke(*occ))
+        psi = randc(2, rd.number(n, d))
+
+        def indirect(n=n, d=d, psi=psi):
+            # numqi's own users of the table while an earlier result is edited: all monitored
+            Dk.partial_trace_ABk_to_AB(psi.copy(), Dk.get_partial_trace_ABk_to_AB_index(n, d))
+            with driver(ctx, 'history/PureBosonicExt'):
+                model = numqi.entangle.PureBosonicExt(2, d, kext=n, distance_kind='gellmann')
+                model.set_dm_target(np.eye(2 * d) / (2 * d))
+                model()
+            if d == 2:
+                with driver(ctx, 'history/get_symmetric_extension_irrep_coeff'):
+                    numqi.group.symext._get_symmetric_extension_irrep_coeff_internal.cache_clear()
+                    numqi.group.symext.get_symmetric_extension_irrep_coeff(2, n)
+        edit_result_then_call_again(ctx, 'get_partial_trace_ABk_to_AB_index', lambda: Dk.get_partial_trace_ABk_to_AB_index(n, d), between=indirect)
+        edit_result_then_call_again(ctx, 'get_partial_trace_ABk_to_AB_index', lambda: Dk.get_partial_trace_ABk_to_AB_index(n, d, return_tensor=True), between=indirect)
+        edit_result_then_call_again(ctx, 'partial_trace_ABk_to_AB', lambda: Dk.partial_trace_ABk_to_AB(psi.copy(), Dk.get_partial_trace_ABk_to_AB_index(n, d)))
+        edit_result_then_call_again(ctx, 'partial_trace_ABk_to_AB', lambda: Dk.partial_trace_ABk_to_AB(torch.from_numpy(psi.copy()), torch_table(n, d)))
+        if n >= 2:
+            edit_result_then_call_again(ctx, 'get_qubit_dicke_partial_trace', lambda: Dk.get_qubit_dicke_partial_trace(n + d))
+
+    # ---------------- (1b) work buffers: the same argument object refilled in place
+    for dims, keep in [((2, 3), {1}), ((2, 2, 3), {0, 2}), ((3, 2), 0)]:
+        D = int(np.prod(dims))
+        for order in ('C', 'F'):
+            buf = np.zeros((D, D), dtype=np.complex128, order=order)
+            fills = [lambda b: b.__setitem__(Ellipsis, randc(D, D)) for _ in range(3)] + [lambda b: b.__imul__(2)]
+            work_buffer(ctx, 'partial_trace', lambda b: U.partial_trace(b, dims, keep), buf, fills, lambda b: np.array(b, order='K', copy=True))
+    dl = [2, 3]
+    rho = randc(6, 6)
+    work_buffer(ctx, 'partial_trace', lambda b: U.partial_trace(rho, b, {0}), dl, [lambda b: None, lambda b: b.__setitem__(slice(None), [3, 2]), lambda b: b.reverse()], list)
+    for dimA, dimB, k in [(2, 2, 3), (3, 3, 2), (2, 3, 3)]:
+        nd = rd.number(k, dimB)
+        tab = Dk.get_partial_trace_ABk_to_AB_index(k, dimB)
+        ttab = torch_table(k, dimB)
+        fills = [lambda b: b.__setitem__(Ellipsis, randc(dimA, nd)) for _ in range(3)] + [lambda b: b.__imul__(0.5)]
+        work_buffer(ctx, 'partial_trace_ABk_to_AB', lambda b: Dk.partial_trace_ABk_to_AB(b, tab), np.zeros((dimA, nd), dtype=np.complex128), fills, lambda b: b.copy())
+        tfills = [lambda b: b.copy_(torch.from_numpy(randc(dimA, nd))) for _ in range(3)] + [lambda b: b.mul_(0.5)]
+        work_buffer(ctx, 'partial_trace_ABk_to_AB', lambda b: Dk.partial_trace_ABk_to_AB(b, ttab), torch.zeros(dimA, nd, dtype=torch.complex128), tfills, lambda b: b.clone())
+        # the index table itself as the reused object: the caller folds a factor into the weights, in place (its own arrays)
+        psi = randc(dimA, nd)
+
+        def scale_np(b):
+            for _, _, v in b:
+                v *= 0.5
+
+        def scale_t(b):
+            for x in b:
+                x[2].mul_(0.5)
+        mytab = [tuple(np.array(y) for y in x) for x in tab]
+        work_buffer(ctx, 'partial_trace_ABk_to_AB', lambda b: Dk.partial_trace_ABk_to_AB(psi, b), mytab, [lambda b: None, scale_np, scale_np],
+                    lambda b: [tuple(np.array(y) for y in x) for x in b])
+        work_buffer(ctx, 'partial_trace_ABk_to_AB', lambda b: Dk.partial_trace_ABk_to_AB(torch.from_numpy(psi), b), ttab, [lambda b: None, scale_t, scale_t],
+                    lambda b: [[y.clone() for y in x] for x in b])
+
+    # ---------------- (2) call order: the same configurations in three different orders inside this process, first one repeated at the end
+    confs = []
+    for n, d in [(2, 2), (3, 2), (2, 3), (3, 3), (4, 2), (2, 4)]:
+        def basis_conf(n=n, d=d):
+            kl = Dk.get_dicke_klist(n, d)
+            Dk.get_dicke_number(n, d)
+            Dk.get_dicke_basis(n, d)
+            Dk.Dicke(*kl[0])
+            Dk.Dicke(*kl[-1])
+        confs.append(basis_conf)
+        for rt in (False, True):
+            confs.append(lambda n=n, d=d, rt=rt: Dk.get_partial_trace_ABk_to_AB_index(n, d, return_tensor=rt))
+    for n in (2, 3, 4, 5):
+        confs.append(lambda n=n: Dk.get_qubit_dicke_partial_trace(n))
+    for dimA, dimB, k in [(2, 3, 2), (3, 2, 2), (2, 2, 3), (3, 3, 3), (2, 4, 2), (4, 2, 4)]:
+        psi = randc(dimA, rd.number(k, dimB))
+        confs.append(lambda psi=psi, dimB=dimB, k=k: Dk.partial_trace_ABk_to_AB(psi.copy(), Dk.get_partial_trace_ABk_to_AB_index(k, dimB)))
+        confs.append(lambda psi=psi, dimB=dimB, k=k: Dk.partial_trace_ABk_to_AB(torch.from_numpy(psi.copy()), torch_table(k, dimB)))
+
+        def model_conf(dimA=dimA, dimB=dimB, k=k):
+            with driver(ctx, 'history/PureBosonicExt'):
+                model = numqi.entangle.PureBosonicExt(dimA, dimB, kext=k, distance_kind='gellmann')
+                model.set_dm_target(np.eye(dimA * dimB) / (dimA * dimB))
+                model().backward()
+        confs.append(model_conf)
+    for dims, keep in [((2, 3), {0}), ((3, 2), {0}), ((2, 3), {1}), ((2, 2, 3), {0, 2}), ((3, 2, 2), {1}), ((2, 3), set()), ((2, 3), {0, 1}), ((2, 2, 2, 2), {3, 0})]:
+        op = randc(int(np.prod(dims)), int(np.prod(dims)))
+        confs.append(lambda op=op, dims=dims, keep=keep: pt(op.copy(), dims, keep))
+        confs.append(lambda op=op, dims=dims, keep=keep: pt(np.asfortranarray(op), list(dims), sorted(keep)))
+    for kind in ('symmetric', 'boson'):
+        def pre_conf(kind=kind):
+            with driver(ctx, 'history/get_ABk_gellmann_preimage_op'):
+                numqi.maximum_entropy.get_ABk_gellmann_preimage_op(2, 2, 2, kind=kind)
+        confs.append(pre_conf)
+    orders = [list(range(len(confs))), list(range(len(confs)))[::-1], [int(t) for t in rng.permutation(len(confs))]]
+    if ctx.tier == 'thorough':
+        orders += [[int(t) for t in rng.permutation(len(confs))] for _ in range(3)]
+    for oi, order in enumerate(orders):
+        for ci in order + [order[0]]:
+            ctx.set_case({'op': 'history/call-order', 'order': oi, 'configuration': ci})
+            with ctx.guard('history/call-order'):
+                confs[ci]()
+                ctx.hit('history/call-order')
+    ctx.extra['call_order'] = {'configurations': len(confs), 'orders': len(orders)}
+
+
 def run_repo_tests(ctx, numqi, torch):
     ctx.workload('repo-tests')
     path = os.path.join(os.path.dirname(os.path.realpath(os.environ.get('NUMQI_SRC', '/repo/python'))), 'tests', 'test_dicke.py')
@@ -832,3 +1230,5 @@ def run(ctx, shard):
         run_realistic(ctx, numqi, torch)
     elif name == 'repo-tests':
         run_repo_tests(ctx, numqi, torch)
+    elif name == 'history':
+        run_history(ctx, numqi, torch)
